@@ -205,6 +205,8 @@ pub struct P21 {
     cases: Vec<Case>,
     wcases: Vec<WriteCase>,
     e2e: bool,
+    /// thorough: every call sequence of depth <= 4 without merging states by cursor
+    unmerged: bool,
 }
 impl P21 {
     pub fn new(tier: Tier) -> P21 {
@@ -239,7 +241,7 @@ impl P21 {
         for w in 0..wcases.len() {
             cases.push(Case::Write(w));
         }
-        P21 { cases, wcases, e2e }
+        P21 { cases, wcases, e2e, unmerged: tier == Tier::Thorough }
     }
 }
 
@@ -274,6 +276,7 @@ impl Property for P21 {
         let r = guarded(|| -> Result<(String, u64, u64), String> {
             match case {
                 Case::File(s, utf8) => {
+                    let unmerged = self.unmerged;
                     let c = content(SIZES[s], utf8);
                     let path = dir.join("data.bin");
                     std::fs::write(&path, &c).unwrap();
@@ -318,7 +321,8 @@ impl Property for P21 {
                                     return Err("MACHINERY: merged states disagree".into());
                                 }
                             }
-                            if seen.insert(mcur) && hist.len() < 2 {
+                            let fresh = seen.insert(mcur);
+                            if (fresh || unmerged) && hist.len() < if unmerged { 3 } else { 2 } {
                                 states += 1;
                                 let mut h2 = hist.clone();
                                 h2.push(*op);
@@ -522,7 +526,7 @@ impl Property for P21 {
         }
     }
     fn rule(&self) -> String {
-        format!("files: sizes {:?} x (binary counter pattern with newlines at 0/4095/4096/8191/8192, UTF-8 text with 2-, 3- and 4-byte characters straddling the buffer boundaries); per file a breadth-first search over call sequences of depth <= 3 from {:?} (string-returning calls only where the data is valid UTF-8), model = content + cursor, canonical state = cursor (merged states cross-checked), every transition on a freshly opened handle and followed by a final read(f) that must return exactly the rest; pipes: 8 call sequences x every composition of the content into <= 3 chunks with sizes from {{1, 100, 4096, 4097, 8192, rest}} on a FIFO opened with the real open (in-process) and on stdin of the binary; the feeder writes chunk j+1 only when the pipe is empty (FIONREAD == 0), every schedule is run twice and must give identical observations, a reader still waiting after the writer closed is a hang; writes: mode (w, a, x, r, none) x target (missing, existing) x sequences of <= 2 (thorough 3) writes of sizes 0/1/8191/8192/8193 as string / byte array / single byte x ending (handle closed; flush(f) with the handle still open): file content = old-content rule of the mode + the bytes written, and open must succeed or fail as documented", SIZES, OPS)
+        format!("files: sizes {:?} x (binary counter pattern with newlines at 0/4095/4096/8191/8192, UTF-8 text with 2-, 3- and 4-byte characters straddling the buffer boundaries); per file a breadth-first search over call sequences of depth <= 3 (thorough: every sequence of depth <= 4, states not merged) from {:?} (string-returning calls only where the data is valid UTF-8), model = content + cursor, canonical state = cursor (merged states cross-checked), every transition on a freshly opened handle and followed by a final read(f) that must return exactly the rest; pipes: 8 call sequences x every composition of the content into <= 3 chunks with sizes from {{1, 100, 4096, 4097, 8192, rest}} on a FIFO opened with the real open (in-process) and on stdin of the binary; the feeder writes chunk j+1 only when the pipe is empty (FIONREAD == 0), every schedule is run twice and must give identical observations, a reader still waiting after the writer closed is a hang; writes: mode (w, a, x, r, none) x target (missing, existing) x sequences of <= 2 (thorough 3) writes of sizes 0/1/8191/8192/8193 as string / byte array / single byte x ending (handle closed; flush(f) with the handle still open): file content = old-content rule of the mode + the bytes written, and open must succeed or fail as documented", SIZES, OPS)
     }
     fn bounds(&self) -> Value {
         json!({"cases": self.cases.len(), "write_cases": self.wcases.len(), "binary_runs": self.e2e})
